@@ -101,6 +101,13 @@ class BrokenCheck(Exception):
     pass
 
 
+def fn_is_closure_of_private(key):
+    import re
+    from .rules.private_anchors import PRIVATE_ANCHORS
+    base = re.sub(r"(::\{closure#\d+\})+$", "", key)
+    return base != key and base in PRIVATE_ANCHORS
+
+
 class Ctx:
     def __init__(self, prop, tier, prog, an, label="repo"):
         self.prop = prop
@@ -112,6 +119,8 @@ class Ctx:
         self.functions = set()
         self.call_sites = 0
         self.notes = []
+        from . import rulelib
+        rulelib.set_current_program(prog)
 
     # -- anchors ---------------------------------------------------------------
     def body(self, key):
@@ -146,10 +155,27 @@ class Ctx:
         o = self.ob(oid, rule, key, text)
         fd = self.fd(key)
         if fd is None:
+            from .rules.private_anchors import PRIVATE_ANCHORS
+            if key in PRIVATE_ANCHORS or fn_is_closure_of_private(key):
+                # a private helper may be inlined, split or renamed without changing behaviour
+                o.status = "undecided"
+                o.detail = "private helper %s is no longer present (inlined or renamed); the obligations on its public callers still apply" % key
+                return o, None
             o.status = "anchor-missing"
             o.detail = "function %s not found in the analysed program" % key
             return o, None
         return o, fd
+
+    def anchor_gone(self, o, key, what=None):
+        """the function an obligation is anchored at does not exist: private helpers degrade to undecided"""
+        from .rules.private_anchors import PRIVATE_ANCHORS
+        if key in PRIVATE_ANCHORS or fn_is_closure_of_private(key):
+            o.status = "undecided"
+            o.detail = "private helper %s is no longer present (inlined or renamed)" % key
+        else:
+            o.status = "anchor-missing"
+            o.detail = what or ("function %s not found in the analysed program" % key)
+        return o
 
     def ok(self, o, detail="", sample=None):
         o.status = "ok"
